@@ -140,7 +140,7 @@ func readerModel(a Aln, descs []string, scored bool) string {
 	return sb.String()
 }
 
-var c16Mutations = []string{"blank_after_first_header", "blank_between_records", "blank_inside_sequence", "blank_at_start", "blank_at_end", "two_blank_lines", "header_without_id", "header_space_only", "lone_gt_last", "short_row", "long_row", "bad_symbol", "control_byte", "no_leading_header", "empty", "only_newlines", "trailing_space", "byte_flip", "truncate", "cr_only", "trailing_empty_record", "tab_header", "empty_first_record", "empty_middle_record"}
+var c16Mutations = []string{"blank_after_first_header", "blank_between_records", "blank_inside_sequence", "blank_at_start", "blank_at_end", "two_blank_lines", "header_without_id", "header_space_only", "lone_gt_last", "short_row", "long_row", "bad_symbol", "control_byte", "no_leading_header", "empty", "only_newlines", "trailing_space", "byte_flip", "truncate", "cr_only", "trailing_empty_record", "tab_header", "empty_first_record", "empty_middle_record", "random_bytes", "random_fasta_alphabet", "random_lines"}
 
 func mutateFasta(r *Rand, text string, kind string) string {
 	nl := "\n"
@@ -237,6 +237,37 @@ func mutateFasta(r *Rand, text string, kind string) string {
 		return strings.Join(lines, "\r") + "\r"
 	case "trailing_empty_record":
 		return join() + ">last" + nl
+	case "random_bytes":
+		b := make([]byte, r.Range(1, 80))
+		for i := range b {
+			b[i] = byte(r.Intn(256))
+		}
+		return string(b)
+	case "random_fasta_alphabet":
+		const alpha = ">>\n\n\r ACGTNacgtn-?RYKMX\t.*0"
+		b := make([]byte, r.Range(1, 80))
+		for i := range b {
+			b[i] = alpha[r.Intn(len(alpha))]
+		}
+		return string(b)
+	case "random_lines":
+		// a random sequence of plausible lines: headers, sequence lines of random widths, blanks
+		var sb strings.Builder
+		for k := r.Range(1, 12); k > 0; k-- {
+			switch r.Intn(6) {
+			case 0:
+				sb.WriteString(">" + r.Pick("a", "b c", "", " ", "x\ty") + nl)
+			case 1:
+				sb.WriteString(nl)
+			default:
+				w := r.Range(0, 6)
+				for j := 0; j < w; j++ {
+					sb.WriteByte("ACGTN-acgtRY?"[r.Intn(13)])
+				}
+				sb.WriteString(nl)
+			}
+		}
+		return sb.String()
 	case "empty_first_record":
 		ins(0, ">empty0")
 	case "empty_middle_record":
